@@ -119,6 +119,8 @@ class Work:
             except OSError:
                 f.seek(0)
             last = f.read()
+        if b'"inapi":false' in last:
+            raise Infra("the driver itself crashed outside an API call (script %s): %s" % (sp, last[-300:]))
         if b'"e":"End"' not in last:
             with open(tp, "a") as f:
                 f.write('{"e":"Fault","op":"?","what":"driver-died rc=%d","sig":0}\n{"e":"End","complete":false}\n' % r.returncode)
@@ -160,11 +162,9 @@ def judge_one(args):
     out = r.stdout
     shutil.rmtree(metadir, ignore_errors=True)
     res = dict(trace=trace, rejects=[], foreign=[], envfault=[], stopped=None, wall=time.time() - t0)
-    for line in out.splitlines():
-        m = TLC_LINE.match(line.strip())
-        if not m:
-            continue
-        kind, rest = m.groups()
+    # TLC pretty-prints long tuples over several lines
+    for m in re.finditer(r'<<\s*"(REJECT|FOREIGN|ENVFAULT|STOPPED)",\s*(.*?)>>', out, re.S):
+        kind, rest = m.group(1), re.sub(r"\s+", " ", m.group(2)).strip()
         if kind == "STOPPED":
             res["stopped"] = rest
         elif kind == "REJECT":
@@ -177,7 +177,8 @@ def judge_one(args):
     ok = "Model checking completed. No error has been found." in out
     res["accepted"] = ok and res["stopped"] is None
     if not res["accepted"] and not res["rejects"] and not res["envfault"]:
-        res["infra"] = "TLC stopped without a verdict:\n" + "\n".join(out.splitlines()[-60:])[-6000:]
+        keep = [x for x in out.splitlines() if not x.startswith(("Parsing file", "Semantic processing", "Linting of"))]
+        res["infra"] = "TLC stopped without a verdict on %s:\n" % trace + "\n".join(keep[-40:])[-5000:]
     for f in os.listdir(SPEC):
         if "_TTrace_" in f:
             try:
